@@ -5,6 +5,8 @@ import multiprocessing as mp_
 ROOT = os.path.dirname(os.path.dirname(os.path.abspath(__file__)))
 REPO = os.environ.get('VERIF_REPO', '/repo')
 NPROC = int(os.environ.get('VERIF_NPROC', '16'))
+# evidence/replays of runs against a scratch copy (seeded changes) must not overwrite the real ones
+OUT = os.environ.get('VERIF_OUT', ROOT)
 
 
 def setup_path():
@@ -194,7 +196,7 @@ def run_property(modname, tier, seed):
         if e['id'] in hits:
             print('KNOWN-FINDING: property=%s %s: %s (cases this run: %d)' % (
                 prop, e['id'], e.get('what', ''), hits[e['id']]))
-    rdir = os.path.join(ROOT, 'replays', prop)
+    rdir = os.path.join(OUT, 'replays', prop)
     status = 0
     for key, n in sorted(vtags.items(), key=lambda kv: -kv[1])[:25]:
         e = match_known(known, json.loads(key))
@@ -244,8 +246,8 @@ def run_property(modname, tier, seed):
         'coverage': cov, 'assumptions': list(getattr(mod, 'ASSUMPTIONS', [])),
         'wall_s': round(wall, 2), 'violations': max(n_new, len(new)),
     }
-    os.makedirs(os.path.join(ROOT, 'evidence'), exist_ok=True)
-    with open(os.path.join(ROOT, 'evidence', prop + '.json'), 'w') as f:
+    os.makedirs(os.path.join(OUT, 'evidence'), exist_ok=True)
+    with open(os.path.join(OUT, 'evidence', prop + '.json'), 'w') as f:
         json.dump(ev, f, indent=1, sort_keys=True)
     print('%s tier=%s seed=%d tasks=%d evaluations=%d nontrivial=%d undecided=%d known=%s new_violations=%d wall=%.1fs' % (
         prop, tier, seed, len(tasks), agg['evals'], agg['nontrivial'], agg['undecided'],
